@@ -527,7 +527,10 @@ func (vfs *OrefaFS) MkdirAll(path string, perm fs.FileMode) error {
 		dirName, _ = avfs.SplitAbs(vfs, dirName)
 	}
 
-	for _, absPath = range ds {
+	// ds goes from the deepest missing directory up to the shallowest one:
+	// create them from the top down.
+	for i := len(ds) - 1; i >= 0; i-- {
+		absPath = ds[i]
 		_, fileName := avfs.SplitAbs(vfs, absPath)
 
 		parent = vfs.createDir(parent, absPath, fileName, perm)
